@@ -154,6 +154,18 @@ func (c *checker) sweep(lo, hi int64) {
 		n := int(v)
 		var wantF int
 		var isPow bool
+		if n > maxPow {
+			// no power of two >= n fits into int (32-bit builds: the upper half of the int32 range): Ceil must panic
+			// (checked with recover on the neighbourhoods and the random values; too slow for 2^30 values, and the
+			// incremental reference below would overflow); Floor and IsPowerOfTwo are total and are swept here
+			if got := gmath.FloorToPowerOfTwo(n); got != maxPow {
+				c.res.Violate("C20 FloorToPowerOfTwo mismatch range="+rangeClass(n), fmt.Sprintf("FloorToPowerOfTwo(%d)=%d, reference %d", n, got, maxPow), map[string]any{"fn": "Floor", "n": n})
+			}
+			if gmath.IsPowerOfTwo(n) {
+				c.res.Violate("C20 IsPowerOfTwo mismatch range="+rangeClass(n), fmt.Sprintf("IsPowerOfTwo(%d)=true", n), map[string]any{"fn": "IsPow", "n": n})
+			}
+			continue
+		}
 		if n <= 2 {
 			ceil, wantF, isPow = 2, n, n == 1 || n == 2
 		} else {
